@@ -3,7 +3,8 @@
    variable LVS_IN is one record produced by the harness from the REAL library (compile_lvs, Checker);
    TLC evaluates the reference operators of Lvs.tla / LvsTree.tla on the record's inputs and prints one
    verdict per record:    <<"R", sid, kind, verdict>>
-   kind "m" (C11)  rules, model, names, r1 (Checker.match directly), r2 (after save/load)
+   kind "m" (C11)  rules, model, names, r1 (Checker.match directly), r2 (after save/load); optionally cks, hist
+                   (several checkers with function tables of their own; enumerations consumed in different ways)
                    verdict = set of <<class, number of names, index of first name>>, {} = all three agree
    kind "c" (C12)  rules, model, names, pairs <<pkt index, key index, recorded answer>>
                    verdict = set of <<class, number of pairs, index of first pair>>
@@ -40,8 +41,49 @@ J11Name(S, CH, M, rec, ni) ==
       ELSE {"compile/unexplained/" \o Cmp(tree, src)})
      \cup (IF tree = d THEN {} ELSE {"checker/" \o Cmp(d, tree)})
      \cup (IF d = l THEN {} ELSE {"saveload/" \o Cmp(l, d)})
+(* ---- C11: histories ----
+   A record may carry the history of one process: rec.cks, the Checker objects it constructed over the model
+   (each with the function table `tab` of its own dictionary of user functions; via = "direct" from the model
+   object, "load" from its bytes), and rec.hist, the enumerations Checker.match(names[ni]) it ran on them, in
+   the order they were started, each with the way the caller consumed it:
+     mode "full"    exhausted at once (list(...))
+          "take"    the caller stopped after k results (next / any / break); ny results were delivered
+          "abort"   a user function raised at its k-th call of this enumeration (oc = "ok": never reached)
+          "nested"  the caller took k results, ran other enumerations, then exhausted this one
+   The property is history-independent: what an enumeration reports is decided by the model, the function
+   table of ITS checker and the name - not by earlier, abandoned, failed or concurrent enumerations on the
+   same object, nor by other checkers constructed before or after.  An enumeration that ran to its end reports
+   exactly the expected set; one that was cut short reports a subset of it (which subset is not fixed).
+   r1 / r2 above are the last enumerations of the history on checkers 1 and 2. *)
+HasHist(rec) == "hist" \in DOMAIN rec
+Whole(ev) == \/ ev.mode \in {"full", "nested"}
+             \/ (ev.mode = "take" /\ ev.ny < ev.k)
+             \/ (ev.mode = "abort" /\ ev.oc = "ok")
+(* where the enumeration stands in the history of its checker and name (part of the class only) *)
+HClass(rec, e) ==
+  LET ev == rec.hist[e]
+      prior == {q \in 1..(e - 1) : rec.hist[q].ck = ev.ck /\ rec.hist[q].ni = ev.ni}
+  IN IF ev.conc > 0 THEN "concurrent"
+     ELSE IF \E q \in prior : ~Whole(rec.hist[q]) THEN "after-partial"
+     ELSE IF prior # {} THEN "repeated" ELSE "first"
+JEvent(S, CHs, M, rec, e) ==
+  LET ev   == rec.hist[e]
+      n    == rec.names[ev.ni]
+      tab  == rec.cks[ev.ck].tab
+      exp  == TreeMatchRules(RetabTree(M, tab), n)
+      got  == RecSet(ev.res)
+      bad  == IF Whole(ev) THEN got # exp ELSE ~(got \subseteq exp)
+  IN (IF bad THEN {"history/" \o ev.mode \o "/" \o HClass(rec, e) \o "/" \o Cmp(got, exp)} ELSE {})
+     \cup  \* the source text read with the checker's table (Lvs!Retab) and the tree read with it agree
+     (IF tab = rec.cks[1].tab \/ MatchWith(Retab(S, tab), CHs[ev.ck], n, NoDev) = exp THEN {}
+      ELSE {"compile/function-table/" \o Cmp(exp, MatchWith(Retab(S, tab), CHs[ev.ck], n, NoDev))})
+J11Hist(S, M, rec, ni) ==
+  IF ~HasHist(rec) THEN {}
+  ELSE LET CHs == [c \in 1..Len(rec.cks) |-> IF rec.cks[c].tab = rec.cks[1].tab THEN <<>>
+                                               ELSE AllChains(Retab(S, rec.cks[c].tab))]
+       IN UNION {JEvent(S, CHs, M, rec, e) : e \in {q \in 1..Len(rec.hist) : rec.hist[q].ni = ni}}
 J11(rec) == LET S == [rules |-> rec.rules]  CH == AllChains(S)  M == rec.model
-            IN Tally([ni \in 1..Len(rec.names) |-> J11Name(S, CH, M, rec, ni)])
+            IN Tally([ni \in 1..Len(rec.names) |-> J11Name(S, CH, M, rec, ni) \cup J11Hist(S, M, rec, ni)])
 
 (* ---- C12 ---- *)
 J12Pair(S, CH, M, rec, j) ==
